@@ -2,11 +2,12 @@ import FimVerif.Drivers.Proto
 import FimVerif.Model.Remove
 import FimVerif.Proofs.Lemmas.C08Ports
 import FimVerif.Proofs.Lemmas.C08Shared
+import FimVerif.Proofs.Lemmas.C08Prune
 /-!
 Driver for C08.  Request: `[op, nodes, edges, args, h1, h2, lists]` with
 `nodes = [[id, cls, kind], …]` (cls 0..4 = NetworkNode, Component, NetworkService, ConnectionPoint, Link),
 `edges = [[a, b, rel], …]` (rel 0 = has, 1 = connects), `args` a list of ids, `h1`/`h2` the cached interface
-lists of the handles involved, `lists` four id lists (prune only).
+lists of the handles involved as `[id, name code]` pairs, `lists` four id lists (prune only).
 The field `hyp` is the value of the separation hypothesis of the exactness theorem for that operation (null if none).
 Reply: `["ok", {"deleted": sorted ids, "h1": sorted, "h2": sorted, "f1": sorted fresh, "f2": sorted fresh}]` or `["err", kind]`.
 -/
@@ -33,14 +34,24 @@ def parseG (jn je : Json) : G :=
     | _ => []
   { nodes := nodes, edges := edges }
 
+def ifhOf (j : Json) : List IfH :=
+  match j with
+  | .arr xs => xs.toList.filterMap (fun x => match natsOf x with | [i, n] => some ⟨i, n⟩ | _ => none)
+  | _ => []
+
 def sortNat (l : List Nat) : List Nat := (l.toArray.qsort (· < ·)).toList
 
 def ofNats (l : List Nat) : Json := Json.arr ((sortNat l).map (fun (n : Nat) => Json.num (JsonNumber.fromNat n))).toArray
 
+/-- handle entries as sorted `[id, name]` pairs -/
+def ofIfH (l : List IfH) : Json :=
+  let a := (l.toArray.qsort (fun x y => x.id < y.id || (x.id == y.id && x.name < y.name))).toList
+  Json.arr (a.map (fun x => Json.arr #[Json.num (JsonNumber.fromNat x.id), Json.num (JsonNumber.fromNat x.name)])).toArray
+
 def errName : Err → String
   | .query => "query" | .topology => "topology" | .assertion => "assertion"
 
-def reply (g : G) (r : Except Err (G × List Nat × List Nat)) (s1 s2 : Option Nat) (hyp : Option Bool := none) (hyp2 : Option Bool := none) : Json :=
+def reply (g : G) (r : Except Err (G × List IfH × List IfH)) (s1 s2 : Option Nat) (hyp : Option Bool := none) (hyp2 : Option Bool := none) : Json :=
   match r with
   | .error e => err (errName e)
   | .ok (g', h1, h2) =>
@@ -49,20 +60,20 @@ def reply (g : G) (r : Except Err (G × List Nat × List Nat)) (s1 s2 : Option N
     let frame := g'.nodes == g.nodes.filter (fun n => g'.has n.id) &&
                  g'.edges == g.edges.filter (fun e => g'.has e.a && g'.has e.b)
     let fresh (s : Option Nat) := match s with | some x => freshIfs g' x | none => []
-    ok (Json.mkObj [("deleted", ofNats deleted), ("frame", Json.bool frame), ("h1", ofNats h1), ("h2", ofNats h2),
+    ok (Json.mkObj [("deleted", ofNats deleted), ("frame", Json.bool frame), ("h1", ofIfH h1), ("h2", ofIfH h2),
                     ("f1", ofNats (fresh s1)), ("f2", ofNats (fresh s2)),
                     ("hyp", match hyp with | some b => Json.bool b | none => Json.null),
                     ("hyp2", match hyp2 with | some b => Json.bool b | none => Json.null)])
 
-def plain (r : Except Err G) : Except Err (G × List Nat × List Nat) := r.map (fun g => (g, [], []))
+def plain (r : Except Err G) : Except Err (G × List IfH × List IfH) := r.map (fun g => (g, [], []))
 
 def handle (j : Json) : Json :=
   match j with
   | .arr #[.str op, jn, je, jargs, jh1, jh2, jl] =>
     let g := parseG jn je
     let args := natsOf jargs
-    let h1 := natsOf jh1
-    let h2 := natsOf jh2
+    let h1 := ifhOf jh1
+    let h2 := ifhOf jh2
     let lists := match jl with | .arr xs => xs.toList.map natsOf | _ => []
     match op, args with
     | "remove_node", [n] => reply g (plain (removeNodeApi g n)) none none (some (SepNodeApi g n && InvCP g && InvPeer g))
@@ -80,7 +91,7 @@ def handle (j : Json) : Json :=
         (some (InvPeer g && isSub g c && g.kind? c != some kDedicatedPort && SepDiscSeq g [] (deepIfs g [c]) && Sep g ((deepIfs g [c]).flatMap (discDel g)) c false))
     | "prune", [] =>
       match lists with
-      | [ns, cs, ss, is] => reply g (plain (prune g ns cs ss is)) none none
+      | [ns, cs, ss, is] => reply g (plain (prune g ns cs ss is)) none none (some (HypPrune g ns cs ss is && InvCP g && InvPeer g))
       | _ => err "bad-args"
     | "g_remove_cp", [x, dp] => reply g (plain (removeCp g x (dp != 0))) none none
     | "g_remove_comp", [x] => reply g (plain (removeComp g x)) none none (some (SepComp g [] x && InvCP g))
